@@ -57,6 +57,13 @@ def base_programs(ctx, n):
     fam = gen.revisit_family()
     for f in fam:
         out.append(([{'part': 'always', 'head': ('choice', ['a', 'b']), 'body': []}], ('tel', f), 'always'))
+    # fixed family: the base program mentions a formula, the observer its weak / strong or dual sibling (two formulas that differ in one flag only)
+    a, b = ('atom', 'a'), ('atom', 'b')
+    for f in [('prev', None, a), ('wprev', None, a), ('prev', 2, a), ('next', None, a), ('wnext', None, a), ('next', 2, a), ('until', a, b), ('release', a, b), ('since', a, b), ('trigger', a, b),
+              ('until', None, a), ('since', None, a), ('seqnext', a, b), ('seqprev', a, b), ('and', a, ('prev', None, b)), ('initially', a), ('or', ('wprev', None, a), ('wnext', None, b))]:
+        for g in sorted({gen.sibling(ctx.rng('sib', json.dumps(f), j), f) for j in range(6)} - {f}, key=json.dumps):
+            for sg in 'nm':
+                out.append(([{'part': 'always', 'head': ('choice', ['a', 'b']), 'body': []}, {'part': 'always', 'head': ('norm', 'c', 0), 'body': [(sg, ('tel', f))]}], ('tel', g), 'always'))
     return out
 
 
